@@ -138,7 +138,10 @@ def _(m, callee, args):
 
 @model(r' as Iterator>::chain::<')
 def _(m, callee, args):
-    return PyIter('chain', a=args[0], b=args[1], a_done=False)
+    b = args[1]
+    if not isinstance(deref_all(m, b), (PyIter, Iter)):
+        b = into_iter(m, b)            # the argument is any IntoIterator
+    return PyIter('chain', a=args[0], b=b, a_done=False)
 
 
 @model(r' as Iterator>::map::<')
@@ -1687,3 +1690,119 @@ def _(m, callee, args):
     fs.log.append(('create', p))
     fs.log.append(('write', p))
     return OK(())
+
+
+# ------------------------------------------------------------------ PathBuf keys: std compares and hashes paths by components
+def path_eq(m, a, b):
+    ca, cb = models2.components(m, a), models2.components(m, b)
+    if len(ca) != len(cb):
+        return False
+    for x, y in zip(ca, cb):
+        if x.disc != y.disc:
+            return False
+        if x.disc == 4 and not str_eq(m, x.fields[0].v, y.fields[0].v):
+            return False
+    return True
+
+
+def _hfind_path(m, hm, key):
+    k = deref_all(m, key)
+    for i, (ek, _) in enumerate(hm.items):
+        if path_eq(m, k, deref_all(m, ek)):
+            return i
+    return -1
+
+
+def _pathmap_get_mut(m, callee, args):
+    assert m.env.get('lock_held', True), 'registry touched without the lock'
+    hm = deref_all(m, args[0])
+    i = _hfind_path(m, hm, args[1])
+    return NONE() if i < 0 else some(ValRef(hm.items[i][1]))
+
+
+def _pathmap_insert(m, callee, args):
+    assert m.env.get('lock_held', True), 'registry touched without the lock'
+    hm = deref_all(m, args[0])
+    i = _hfind_path(m, hm, args[1])
+    if i >= 0:
+        old = hm.items[i][1]
+        hm.items[i] = (hm.items[i][0], args[2])
+        return some(old)
+    hm.items.append((deref_all(m, args[1]), args[2]))
+    return NONE()
+
+
+_prepend(r'^HashMap::<PathBuf, .*>::(get_mut|get)::<', _pathmap_get_mut)
+_prepend(r'^HashMap::<PathBuf, .*>::insert$', _pathmap_insert)
+_prepend(r'^HashMap::<PathBuf, .*>::contains_key::<', lambda m, c, a: _hfind_path(m, deref_all(m, a[0]), a[1]) >= 0)
+
+
+def _path_partial_eq(m, callee, args):
+    same = path_eq(m, rstr(m, args[0]), rstr(m, args[1]))
+    return same if callee.endswith('eq') else not same
+
+
+_prepend(r'^<(PathBuf|Path|&Path|&PathBuf) as PartialEq(<.*>)?>::(eq|ne)$', _path_partial_eq)
+
+
+def _split_file_at_dot(m, name):
+    """std::path rsplit_file_at_dot: (stem chars, extension chars | None)"""
+    if len(name) == 2 and all(models2.ceq(m, c, 46) for c in name):
+        return name, None
+    dots = [i for i, c in enumerate(name) if models2.ceq(m, c, 46)]
+    if not dots or dots[-1] == 0:
+        return name, None
+    i = dots[-1]
+    return name[:i], name[i + 1:]
+
+
+def _set_ext(m, cs, ext):
+    comps_ = models2.components(m, RStr(cs))
+    if not comps_ or comps_[-1].disc != 4:
+        return None
+    name = comps_[-1].fields[0].v.cs
+    stem, _ = _split_file_at_dot(m, name)
+    # the file name is the tail of the path up to trailing separators
+    end = len(cs)
+    while end > 0 and models2.ceq(m, cs[end - 1], 47):
+        end -= 1
+    start = end - len(name)
+    new_name = list(stem) + (([46] + list(ext)) if ext else [])
+    return cs[:start] + new_name
+
+
+@model(r'^Path::with_extension::<')
+def _(m, callee, args):
+    cs = rstr(m, args[0]).cs
+    r = _set_ext(m, list(cs), rstr(m, args[1]).cs)
+    return RStr(list(cs) if r is None else r)
+
+
+@model(r'^PathBuf::set_extension::<')
+def _(m, callee, args):
+    r_ = args[0]
+    cs = rstr(m, r_).cs
+    r = _set_ext(m, list(cs), rstr(m, args[1]).cs)
+    if r is None:
+        return False
+    m.write_place(r_.frame, r_.place, RStr(r))
+    return True
+
+
+@model(r'^Path::with_file_name::<|^PathBuf::set_file_name::<')
+def _(m, callee, args):
+    cs = rstr(m, args[0]).cs
+    comps_ = models2.components(m, RStr(cs))
+    if comps_ and comps_[-1].disc == 4:
+        par = models2.MODELS and None
+        buf_ = []
+        for c in comps_[:-1]:
+            buf_ = models2.path_push(m, buf_, models2.comp_str(c))
+    else:
+        buf_ = list(cs)
+    out = models2.path_push(m, buf_, rstr(m, args[1]).cs)
+    if callee.startswith('PathBuf::set_file_name'):
+        r_ = args[0]
+        m.write_place(r_.frame, r_.place, RStr(out))
+        return ()
+    return RStr(out)
